@@ -19,9 +19,150 @@ EXPECTED_PROBES = ['body_ended_before_deadline', 'body_running_past_deadline', '
 PROF = gen.profile(max_nodes=8, max_depth=3, w_phase=10, w_group=5, w_subtest=2, w_branch=0, w_ckpt_fail=0, w_ckpt_diag=0, p_fault_beh=150, p_timeout=500, p_ambiguous_dur=350, late=600, p_dur=300, p_attach=400, p_logs=500, p_plug=150)
 
 
+EXPECTED_PROBES += ['kill_before_start', 'kill_during_body', 'kill_after_body', 'kill_in_start_window']
+
+
 def setup():
   common.setup()
+  import workloads.wkill  # noqa: F401  pylint: disable=unused-import,g-import-not-at-top
 
 
 def run_one(tape):
-  return common.run_with(tape, PROF, [oracles.c12])
+  if tape.weighted([(7, 'exec'), (3, 'kill')], 'mode') == 'kill':
+    return run_kill(tape)
+  return common.run_with(tape, PROF, [oracles.c12], pre=_slow_logging)
+
+
+def _slow_logging(tape, spec):
+  # a user log handler that takes (virtual) time: deadlines can pass inside framework code
+  if tape.chance(200, 'slowlog'):
+    spec['slow_log_s'] = tape.pick([0.3, 1.1, 2.0], 'slowlog_s')
+
+
+def run_kill(tape):
+  import threading
+  from simkit import core, env
+  from workloads import wkill
+  env.hygiene()
+  script = {'body': tape.weighted([(3, 'sleep'), (3, 'busy'), (2, 'quick'), (1, 'raise')], 'body'),
+            'n': tape.pick([1, 3, 12, 40], 'n'), 'd': tape.pick([0.01, 0.1, 1.0], 'd'),
+            'hn': tape.pick([2, 6, 20], 'hn'), 'hsleep': tape.pick([0, 0, 0.05], 'hsleep')}
+  n_k = 1 + tape.draw(2, 'nkillers')
+  when = [tape.weighted([(2, 'before_start'), (4, 'step'), (2, 'delay')], 'when') for _ in range(n_k)]
+  steps = [tape.draw(tape.pick([12, 40, 120, 400], 'range') + 1, 'kstep') for _ in range(n_k)]
+  delays = [tape.pick([0, 0.05, 0.2, 1.5, 5.0], 'kdelay') for _ in range(n_k)]
+  knobs = core.Knobs(p_sync=tape.pick([0, 100, 300], 'p_sync'), gap_mean=tape.pick([0, 3, 8, 25], 'gap'),
+                     hot_span=tape.pick([0, 4, 12], 'hot'), max_steps=300000, max_time=500.0,
+                     async_delay_max=0)
+  viols = []
+  probes = {}
+  with env.NoGC(25):
+    sim = core.Sim(tape, env.TRACE_PREFIXES, knobs)
+    sim.begin()
+    try:
+      v = wkill.Victim(sim, script)
+      gates = [core.Gate() for _ in range(n_k)]
+      ks = []
+      for i in range(n_k):
+        t = threading.Thread(target=wkill.killer, args=(sim, v, gates[i], i, delays[i] if when[i] == 'delay' else 0),
+                             name='killer%d' % i)
+        t.daemon = True
+        t.start()
+        ks.append(t)
+      by = threading.Thread(target=wkill.bystander, args=(sim, 30), name='bystander')
+      by.daemon = True
+      by.start()
+      for i in range(n_k):
+        if when[i] == 'before_start':
+          gates[i].open(prefer=False)
+      pre = [ks[i] for i in range(n_k) if when[i] == 'before_start' and tape.chance(700, 'join_first')]
+      for t in pre:
+        t.join()
+      for i in range(n_k):
+        if when[i] == 'step':
+          sim.at_step(sim.steps + 1 + steps[i], (lambda g: (lambda frame: g.open()))(gates[i]))
+        elif when[i] == 'delay':
+          gates[i].open(prefer=False)
+      sim.event('start_call')
+      v.start()
+      v.join(60.0)
+      sim.event('victim_joined', v.is_alive())
+      for g in gates:
+        g.open(prefer=False)
+      for t in ks:
+        t.join(30.0)
+      by.join(30.0)
+    except core.SimAbort:
+      pass
+    finally:
+      failed = sim.failed
+      failed_info = sim.failed_info
+      sim.end()
+  log = sim.log
+  def first(kind):
+    for e in log:
+      if e[3] == kind:
+        return e[0]
+    return None
+  body_start = first('body_start')
+  # the body has returned for sure once one of the handlers has started
+  hs = [x for x in (first('handler_exception_start'), first('handler_finished_start')) if x is not None]
+  body_over = min(hs) if hs else None
+  kill_rets = [e for e in log if e[3] == 'kill_ret']
+  kill_calls = [e for e in log if e[3] == 'kill_call']
+  started = first('start_call')
+  # kill requested (returned) before the body started => the body never runs
+  for e in kill_rets:
+    if body_start is None or e[0] < body_start:
+      if started is None or e[0] < started:
+        probes['kill_before_start'] = probes.get('kill_before_start', 0) + 1
+      else:
+        probes['kill_in_start_window'] = probes.get('kill_in_start_window', 0) + 1
+      if body_start is not None and e[0] < body_start:
+        before_thread_start = started is None or e[0] < started
+        # in the window between start() and the body the kill is either honoured before the
+        # body begins or delivered as ThreadTerminationError inside it
+        delivered_in_body = any((x[3] == 'body_exc' and x[4] == 'ThreadTerminationError') or
+                                (x[3] == 'async_exc_delivered' and x[5] == '_thread_proc') for x in log)
+        if before_thread_start or not delivered_in_body:
+          viols.append({'clause': 'body_ran_although_killed_before_it_started',
+                        'details': {'kill_returned_before_thread_start': before_thread_start,
+                                    'body_completed': first('body_end') is not None}})
+          break
+  # kill requested after the body returned => no exception anywhere
+  if body_over is not None:
+    late_calls = [e for e in kill_calls if e[0] > body_over]
+    early_calls = [e for e in kill_calls if e[0] < body_over]
+    if late_calls:
+      probes['kill_after_body'] = probes.get('kill_after_body', 0) + 1
+    if late_calls and not early_calls:
+      bad = [e for e in log if e[3] in ('exc_in_handler', 'async_exc_delivered', 'kill_raised') and e[0] > body_over]
+      if bad:
+        viols.append({'clause': 'kill_after_body_had_an_effect', 'details': {'event': list(bad[0][3:6])}})
+    if early_calls and body_start is not None and any(e[0] > body_start for e in early_calls):
+      probes['kill_during_body'] = probes.get('kill_during_body', 0) + 1
+  # a kill raises ThreadTerminationError in the victim only
+  if any(e[3] == 'bystander_exc' for e in log):
+    viols.append({'clause': 'kill_surfaced_in_other_thread', 'details': {}})
+  for e in log:
+    if e[3] == 'kill_raised':
+      viols.append({'clause': 'kill_call_raised', 'details': {'exc': e[5], 'msg': e[6]}})
+      break
+    if e[3] == 'exc_in_handler':
+      # a kill issued while the body ran can be delivered after it returned (the request is
+      # asynchronous); only kills *requested* after the body are required to have no effect
+      probes['kill_requested_in_body_delivered_in_handler'] = 1
+    if e[3] == 'body_exc' and e[4] not in ('ThreadTerminationError', 'ValueError'):
+      viols.append({'clause': 'foreign_exception_in_body', 'details': {'exc': e[4]}})
+      break
+  if failed in ('deadlock', 'hang'):
+    viols.append({'clause': 'kill_scenario_stuck', 'details': {'info': (failed_info or '')[:200]}})
+  return {
+      'violations': viols, 'digest': sim.digest(), 'sched': sim.sched_digest(),
+      'nontrivial': bool(kill_calls), 'faults': {'kill_calls': len(kill_calls)}, 'probes': probes,
+      'steps': sim.steps, 'switches': sim.switches, 'preempts': sim.preemptions, 'sim_s': sim.now - core.T0,
+      'sample': {'mode': 'kill', 'script': script, 'when': when, 'steps': steps, 'delays': delays,
+                 'events': [list(e[2:]) for e in log[:30]]},
+      'abnormal': ('%s: %s' % (failed, failed_info)) if failed in ('steplimit', 'unwind') else None,
+      'poison': bool(failed),
+  }
